@@ -181,7 +181,7 @@ def generate(rng, n_contigs=(1, 2), n_samples=(1, 3), n_records=(3, 9), kinds=("
     contigs = [["chr%s" % (i + 1) if rng.random() < 0.7 else "ctg%d" % i, 100000] for i in range(nc)]
     if len({c[0] for c in contigs}) < nc:
         contigs = [["chr%d" % (i + 1), 100000] for i in range(nc)]
-    samples = ["S%d" % i if rng.random() < 0.5 else "sample_%s" % "abcdef"[i] for i in range(rng.randint(*n_samples))]
+    samples = ["S%d" % i if rng.random() < 0.5 else "sample_%s" % "abcdefghijkl"[i] for i in range(rng.randint(*n_samples))]
     fmt_defs = {"GT": STD_FORMAT["GT"]}
     extra_f = [k for k in ("DP", "GQ", "AD", "FT", "PL") if extra_format and rng.random() < 0.5]
     for k in extra_f:
@@ -354,4 +354,13 @@ def generate(rng, n_contigs=(1, 2), n_samples=(1, 3), n_records=(3, 9), kinds=("
         extra.append("##source=verif-scenario")
     if phasing and rng.random() < 0.5:
         extra.append("##phasing=someothertool")
+    if extra_info and rng.random() < 0.25:
+        # an INFO field that shares its ID with a phase FORMAT tag and is not phase information (Platypus writes INFO/HP = homopolymer run length).
+        # Drawn last so that the rest of a seed's scenario is what it was before this was added.
+        k = rng.choice(["HP", "PS", "PQ"])
+        if k not in info_defs:
+            info_defs[k] = ["1", "Integer", "Not phase information: an INFO field called " + k]
+            for rec in records:
+                if rng.random() < 0.6:
+                    rec["info"].append([k, str(rng.randint(1, 30))])
     return dict(contigs=contigs, samples=samples, defs=defs, extra_header=extra, records=records)
